@@ -6,6 +6,7 @@ CONSTANTS
   MaxPend = 20000
   Horizon = 14
   HeadCheck = TRUE
+  MaxHold = 2
   ExportOn = TRUE
   SampleMod = 1
   MaxAnn = 16
